@@ -120,6 +120,11 @@ def iwc_variants(nlayers=1):
          {"wc_type": "Pct", "value": [50] * nlayers, "depth_layer": list(range(1, nlayers + 1))},
          {"wc_type": "Pct", "method": "Depth", "depth_layer": [0.2, 0.8], "value": [90, 30]},
          {"wc_type": "Prop", "method": "Depth", "depth_layer": [0.3, 1.0], "value": ["FC", "WP"]}]
+    if nlayers >= 2:
+        # layers listed in another order than 1, 2, ... (each value belongs to the layer it names)
+        order = list(range(nlayers, 0, -1))
+        v.append({"value": (["WP", "FC", "SAT"] * 2)[:nlayers], "depth_layer": order})
+        v.append({"wc_type": "Pct", "value": [20 + 25 * k for k in range(nlayers)], "depth_layer": order})
     return v
 
 
@@ -149,7 +154,11 @@ def field_variants():
             {"bunds": True, "z_bund": 0.05, "bund_water": 0},
             {"sr_inhb": True},
             {"curve_number_adj": True, "curve_number_adj_pct": -15},
-            {"curve_number_adj": True, "curve_number_adj_pct": 10}]
+            {"curve_number_adj": True, "curve_number_adj_pct": 10},
+            # combinations of surface features
+            {"mulches": True, "mulch_pct": 60, "f_mulch": 0.6, "bunds": True, "z_bund": 0.1, "bund_water": 30},
+            {"mulches": True, "mulch_pct": 90, "f_mulch": 0.4, "sr_inhb": True},
+            {"bunds": True, "z_bund": 0.08, "bund_water": 10, "curve_number_adj": True, "curve_number_adj_pct": 15}]
 
 
 def gw_variants(start, year):
